@@ -99,10 +99,7 @@ let view_src (a : arr) (ops : op list) : vsrc =
   let ops = if i (nel a) = 0 then [] else ops in      (* views of an empty array are not sliced (null base) *)
   match run_ops ops (root_view (List.map (fun (f, n) -> (z f, z (f + n))) (arr_bx_l a))) with
   | None -> raise (Skip "view-out-of-domain")
-  | Some v ->
-    let exts = List.map (fun (f, l) -> (f, z (i l - i f))) (l_extensions v.lay) in
-    let n = i (l_num_elements v.lay) in
-    { vs_exts = exts; vs_offs = List.init n (fun k -> nat_of_int (i (er_at v (z k)))) }
+  | Some v -> view_vsrc v      (* Model/LifeView.v, extracted: the function C04_view_sources_compose is about *)
 
 let take_n n l = List.filteri (fun k _ -> k < n) l
 let drop_n n l = List.filteri (fun k _ -> k >= n) l
